@@ -262,7 +262,7 @@ func c03(r *rt.Run) {
 	}
 	spaces := []space{{3, []int{lAbsent, lPos, lNeg, lAgg, lTPos, lPosNeg}, true}}
 	if r.Thorough() {
-		spaces = []space{{3, []int{lAbsent, lPos, lNeg, lAgg, lTPos, lTNeg, lPosNeg}, true}, {3, []int{lAbsent, lPos, lNeg, lNegPos, lPosNeg}, true}, {4, []int{lAbsent, lPos, lNeg}, false}, {4, []int{lAbsent, lPos, lTPos, lAgg}, false}}
+		spaces = []space{{3, []int{lAbsent, lPos, lNeg, lAgg, lTPos, lTNeg, lPosNeg}, true}, {3, []int{lAbsent, lPos, lNeg, lNegPos, lPosNeg}, true}, {4, []int{lAbsent, lPos, lNeg}, false}, {4, []int{lAbsent, lPos, lAgg}, false}, {4, []int{lAbsent, lTPos, lTNeg}, false}}
 	} else {
 		spaces = append(spaces, space{4, []int{lAbsent, lPos, lNeg}, false})
 	}
